@@ -30,11 +30,24 @@ type Identity struct {
 // NewIdentity builds a leaf (optionally with n-1 extra chain certificates).
 func NewIdentity(g *mon.Rand, curve elliptic.Curve, host string, chainLen int) *Identity {
 	id := &Identity{Key: ECKey(g, curve)}
-	leaf := Cert(id.Key, CertOpts{CN: host, DNS: []string{host}, Serial: int64(1 + g.Intn(1<<30))})
+	// basicConstraints vary along the chain (nothing here validates the chain, but code that picks "the leaf" by them
+	// must still pick the first certificate): chains of odd length start with a self-signed CA:TRUE certificate, chains
+	// of even length with an issued CA:FALSE one; later certificates alternate CA:FALSE / CA:TRUE
+	caKey := ECKey(g, elliptic.P256())
+	ca := Cert(caKey, CertOpts{CN: "issuing ca", Serial: 50})
+	lo := CertOpts{CN: host, DNS: []string{host}, Serial: int64(1 + g.Intn(1<<30))}
+	if chainLen%2 == 0 {
+		lo.Parent, lo.ParentKey = ca, caKey
+	}
+	leaf := Cert(id.Key, lo)
 	id.Certs = []*x509.Certificate{leaf}
 	for i := 1; i < chainLen; i++ {
 		k := ECKey(g, elliptic.P256())
-		id.Certs = append(id.Certs, Cert(k, CertOpts{CN: fmt.Sprintf("intermediate %d", i), Serial: int64(100 + i)}))
+		o := CertOpts{CN: fmt.Sprintf("intermediate %d", i), Serial: int64(100 + i)}
+		if i%2 == 1 {
+			o.Parent, o.ParentKey = ca, caKey
+		}
+		id.Certs = append(id.Certs, Cert(k, o))
 	}
 	ch, err := certurl.NewCertChain(id.Certs, []byte("ocsp-"+host), nil)
 	if err != nil {
